@@ -434,6 +434,9 @@ impl Engine {
                     }
                     Err(e) => {
                         self.poisoned[w] = true;
+                        // the commands after the one that panicked stay in the buffer and run with the next run_on
+                        // (possibly on the other world): the shadow of that world must be re-read then
+                        self.cmd_counts[cb] = ncmds.max(1);
                         for b in &spawned {
                             self.handles.push(Entity::from_bits(*b).unwrap());
                         }
